@@ -1305,3 +1305,67 @@ RECORD_LEN = record_contract(
     raises={'PyAsn1Error': 'schema'},
     note='len() of the slot list is python\'s; on a schema object the noValue sentinel refuses it')
 CONTRACTS = CONTRACTS + [RECORD_LEN]
+
+
+# ---- reverse() of a SEQUENCE OF: position k holds what position L-1-k held (C19) ------------------------------------------------
+# (the members are walked through dict.values(): for an object built by list operations that is position order -- `ordered0`)
+ORDERED0 = ForAll([_i], Implies(And(_i >= 0, _i < C0), KEY_OF(_i) == _i))
+
+
+class _SymSeq(RecSeqV):
+    """a python sequence of stored objects known by identity tokens (what list(), reversed(), sorted() hand on)"""
+
+    def elem(self, i):
+        return element(self.cols[0][i])
+
+
+def _m_list(ex, x=None):
+    if isinstance(x, RecSeqV):
+        return _SymSeq([x.cols[0]], names=('__id__',))
+    raise Unsupported('list(%r)' % (x,))
+
+
+def _m_reversed(ex, seq):
+    z = seq.cols[0]
+    n = z3.Length(z)
+    r = ex.fresh('reversed', S)
+    ex.assume(And(z3.Length(r) == n, ForAll([_i], Implies(And(_i >= 0, _i < n), r[_i] == z[n - 1 - _i]))))
+    return _SymSeq([r], names=('__id__',))
+
+
+def _m_enumerate(ex, seq):
+    return Obj('enumerate', {'seq': seq}, name='enumerate(...)')
+
+
+def _m_dict(ex, pairs=None, **kw):
+    if pairs is None and not kw:
+        return empty_dict(ex)
+    if not (isinstance(pairs, Obj) and pairs.cls == 'enumerate'):
+        raise Unsupported('dict(%r)' % (pairs,))
+    z = pairs.fields['seq'].cols[0]
+    n = z3.Length(z)
+    p, ids = ex.fresh('dict.present', IntSet), ex.fresh('dict.ids', IntMap)
+    ex.assume(And(ForAll([_k], Select(p, _k) == And(_k >= 0, _k < n)),
+                  ForAll([_k], Implies(And(_k >= 0, _k < n), Select(ids, _k) == z[_k]))))
+    return sym_dict(p, ids, n, name='dict(enumerate(...))')
+
+
+def _is_reversed(ex, d):
+    p, ids, cnt = d.fields['present'], d.fields['ids'], d.fields['count']
+    return And(dense(p, cnt, L0), ForAll([_k], Implies(And(_k >= 0, _k < L0), Select(ids, _k) == Select(ID0, L0 - 1 - _k))))
+
+
+REVERSE = contract(
+    id='type.univ::SequenceOfAndSetOfBase.reverse', qual='SequenceOfAndSetOfBase.reverse', properties=['C19'],
+    params=dict(componentType=PConst(None), self=PDerived(_self_iterable)),
+    globals=dict(G, ordered0=ORDERED0, list=FnV(_m_list, 'list'), reversed=FnV(_m_reversed, 'reversed'),
+                 enumerate=FnV(_m_enumerate, 'enumerate'), dict=FnV(_m_dict, 'dict'),
+                 is_reversed=FnV(_on_dict(_is_reversed), 'is_reversed')),
+    # an object built by list operations: positions 0..L-1, walked in that order
+    requires=['not schema', 'dense0', 'ordered0'],
+    ensures=[('position-k-holds-what-L-1-k-held', 'is_reversed(self._componentValues)')],
+    note='dict.values(), list(), reversed(), enumerate() and dict() of (position, member) pairs are assumed models of the '
+         'python builtins over a sequence of identity tokens; the new dict is filled front to back, i.e. stays in position '
+         'order (stand-in sort-grid: index / count / stable sort after reverse())')
+REVERSE.canary_witness = [C0 == 1, L0 == 1]       # a collection of one member: the quantifiers range over one position
+CONTRACTS = CONTRACTS + [REVERSE]
